@@ -1,5 +1,6 @@
 """INV — call graph, reachability and site inventories (panic-capable, usize subtraction, unsafe, state)."""
 import json
+import re
 import os
 
 from .hir import walk, strip_generics, children, pat_binds
@@ -101,6 +102,12 @@ class CallGraph:
 
 
 _LETS = {}
+_MARK = False  # when set (inside sites()), names of locals that stay in a description are bracketed so keyed() can alpha-rename them
+
+
+def _nm(e):
+    n = e.get("name", "?")
+    return "\x00%s\x01" % n if _MARK else n
 
 
 def collect_lets(body_value):
@@ -159,12 +166,12 @@ def short_descr(c, e, depth=0):
         if d is not None and depth < 7:
             kind, init = d
             if kind == "mut":
-                return "%s<%s>" % (e.get("name", "?"), "; ".join("%s %s" % (op, short_descr(c, r, depth + 3)) for op, r in init))
+                return "%s<%s>" % (_nm(e), "; ".join("%s %s" % (op, short_descr(c, r, depth + 3)) for op, r in init))
             s = short_descr(c, init, depth + 1)
             if kind == "each":
                 return "each(%s)" % s
             return s if kind == "let" else "(%s)?" % s
-        return e.get("name", "?")
+        return _nm(e)
     if k == "field":
         return short_descr(c, e["base"], depth + 1) + "." + e["name"]
     if k in ("addr_of", "use", "cast"):
@@ -230,10 +237,59 @@ def pat_descr(p):
     return "_"
 
 
+_EARLY = True  # early exits (`if c { return .. }` as a statement) guard the statements after them
+
+
+def _cond_descr(c, cond):
+    if cond["k"] == "let_cond":
+        return "%s~%s" % (short_descr(c, cond["init"]), pat_descr(cond["pat"]))
+    if cond["k"] == "lit" and "cfg" in c.macros(cond):
+        return "cfg!(..)"
+    return short_descr(c, cond)
+
+
+def diverges(e):
+    """The expression certainly does not complete normally: return / break / continue / panic as its last step."""
+    k = e["k"]
+    if k in ("ret", "break", "continue"):
+        return True
+    if k == "block":
+        if "tail" in e:
+            return diverges(e["tail"])
+        st = e.get("stmts") or []
+        return bool(st) and st[-1]["k"] == "expr" and diverges(st[-1]["e"])
+    if k == "call" and e.get("callee") and strip_generics(e["callee"]["path"]).startswith(("core::panicking::", "std::rt::begin_panic")):
+        return True
+    if k == "if" and "else" in e:
+        return diverges(e["then"]) and diverges(e["else"])
+    if k == "match" and e.get("arms"):
+        return all(diverges(a["body"]) for a in e["arms"])
+    return False
+
+
 def walk_guarded(c, e, guards=()):
     """Pre-order walk yielding (node, guards) where guards are the dominating branch conditions (line-free)."""
     yield e, guards
     k = e["k"]
+    if k == "block" and _EARLY and e.get("stmts"):
+        g = guards
+        per = []
+        for st in e["stmts"]:
+            per.append((st, g))
+            if st["k"] == "expr" and st["e"]["k"] == "if" and diverges(st["e"]["then"]):
+                if "else" not in st["e"]:
+                    g = g + ("!(" + _cond_descr(c, st["e"]["cond"]) + ")",)
+            elif st["k"] == "expr" and st["e"]["k"] == "if" and "else" in st["e"] and diverges(st["e"]["else"]) and not diverges(st["e"]["then"]):
+                g = g + (_cond_descr(c, st["e"]["cond"]),)
+        if "tail" in e:   # same order as hir.children: tail first
+            for x in walk_guarded(c, e["tail"], g):
+                yield x
+        for st, gs in per:
+            subs = ([st["init"]] if "init" in st else []) + ([st["els"]] if "els" in st else []) if st["k"] == "let" else ([st["e"]] if st["k"] == "expr" else [])
+            for sub in subs:
+                for x in walk_guarded(c, sub, gs):
+                    yield x
+        return
     if k == "if":
         cond = e["cond"]
         for x in walk_guarded(c, cond, guards):
@@ -269,8 +325,17 @@ def walk_guarded(c, e, guards=()):
 
 def sites(c, fid, body, kinds):
     """Yield dict(kind, what, descr, loc, node) for sites of the requested kinds inside a body."""
-    global _LETS
+    global _LETS, _MARK
     _LETS = collect_lets(body["value"])
+    _MARK = True
+    try:
+        for s in _sites(c, fid, body, kinds):
+            yield s
+    finally:
+        _MARK = False
+
+
+def _sites(c, fid, body, kinds):
     for n, guards in walk_guarded(c, body["value"]):
         k = n["k"]
         gtxt = (" under " + " && ".join(guards)) if guards else ""
@@ -308,13 +373,31 @@ def sites(c, fid, body, kinds):
                 yield dict(kind="unsafe", what="unsafe block", descr=short_descr(c, inner) + gtxt, loc=c.loc(n.get("sp")), node=n)
 
 
-def keyed(site_list, fid):
+_MARKED = re.compile("\x00(.*?)\x01")
+
+
+def alpha(d, legacy=False):
+    """Names of locals left in a description (parameters, mutable locals, names beyond the resolution depth) are replaced
+    by $1, $2.. in order of first occurrence, so that renaming a local does not change a key; `self` stays."""
+    if legacy:
+        return _MARKED.sub(lambda m: m.group(1), d)
+    names = {}
+
+    def rep(m):
+        n = m.group(1)
+        if n == "self":
+            return n
+        return names.setdefault(n, "$%d" % (len(names) + 1))
+    return _MARKED.sub(rep, d)
+
+
+def keyed(site_list, fid, legacy=False):
     """Assign line-free keys: (fn, kind, what, descr, ordinal among equals)."""
     import hashlib
     seen = {}
     out = []
     for s in site_list:
-        d = s["descr"]
+        d = s["descr"] = alpha(s["descr"], legacy)
         if len(d) > 260:
             d = d[:200] + " ...#" + hashlib.sha1(d.encode()).hexdigest()[:10]
         base = "%s | %s %s | %s" % (fid, s["kind"], s["what"], d)
